@@ -147,3 +147,45 @@ Proof.
   unfold dims_leaf_idx, dims_leaf_len, leaf_idx, leaf_len.
   now rewrite !flat_map_map_pleaves, Hl.
 Qed.
+
+(* ---- renaming axes consistently never moves an element (C08 renaming, C07 "a number is a fresh axis") ---- *)
+Fixpoint prename (f : N -> N) (p : pex) : pex :=
+  match p with
+  | PAx n l m => PAx (f n) l m
+  | PFl cs => PFl (map (prename f) cs)
+  | POff o t i => POff o t (prename f i)
+  end.
+Definition erename (f : N -> N) (rho : env) : env := map (fun kv => (f (fst kv), snd kv)) rho.
+
+Lemma lookup_rename f rho n : (forall a b, f a = f b -> a = b) -> lookup (erename f rho) (f n) = lookup rho n.
+Proof.
+  intros Hinj. induction rho as [|[k v] rho IH]; [reflexivity|]. cbn [erename map lookup fst snd].
+  destruct (N.eqb_spec (f k) (f n)) as [E|E], (N.eqb_spec k n) as [E'|E']; try reflexivity.
+  - apply Hinj in E. contradiction.
+  - subst. contradiction.
+  - exact IH.
+Qed.
+
+Lemma psize_rename f p : psize (prename f p) = psize p.
+Proof.
+  induction p as [n l m|cs IH|o t i IH] using pex_ind'; cbn [prename psize]; try reflexivity.
+  f_equal. rewrite map_map. apply map_ext_in. intros c Hc. rewrite Forall_forall in IH. now apply IH.
+Qed.
+
+Lemma pidx_rename f rho p : (forall a b, f a = f b -> a = b) -> pidx (erename f rho) (prename f p) = pidx rho p.
+Proof.
+  intros Hinj. induction p as [n l m|cs IH|o t i IH] using pex_ind'; cbn [prename pidx].
+  - now apply lookup_rename.
+  - rewrite !map_map. f_equal.
+    + apply map_ext_in. intros c Hc. rewrite Forall_forall in IH. now apply IH.
+    + apply map_ext. intros c. apply psize_rename.
+  - now rewrite IH.
+Qed.
+
+Theorem pos_rename f rho dims :
+  (forall a b, f a = f b -> a = b) -> pos (erename f rho) (map (prename f) dims) = pos rho dims.
+Proof.
+  intros Hinj. unfold pos. rewrite !map_map. f_equal.
+  - apply map_ext. intros c. now apply pidx_rename.
+  - apply map_ext. intros c. apply psize_rename.
+Qed.
